@@ -34,7 +34,8 @@ META = {
                    "macro expansion cap. Necessary conditions of termination and of 'no internal error'; the time bound "
                    "is not decided."
                    " Also: a census of every slot-table subscript (clamped range bounds / range facts / availability fact), window facts at the slot walk's head and in the milestone pre-pass, all-paths definition of the project end in the model builder, visited-set discipline for work lists that also grow, and a size bound on macro expansion."
-                   " Round 3: divisor census (non-zero constant, or-default, repair, positivity fact, or the timing resolution which the parser must reject unless positive), raw index for the slot walk's run-away test, order of two pinned dates where a task is marked scheduled on them.",
+                   " Round 3: divisor census (non-zero constant, or-default, repair, positivity fact, or the timing resolution which the parser must reject unless positive), raw index for the slot walk's run-away test, order of two pinned dates where a task is marked scheduled on them."
+                   " Round 4: size bound fixed before the passes, slot table known to exist where it is measured, numeric attributes never stored as text through a variable id, mixed allocation list (known finding), horizon estimate guarded against overflow.",
     "assumptions": ["the property tree (parent/children) is finite and acyclic", "for loops over finite containers terminate"],
 }
 
